@@ -105,8 +105,8 @@ int hex2bin(const char *in, size_t inlen, uint8_t *out)
 {
 	int c;
 	if (inlen % 2) {
-		// in is not necessarily NUL terminated, print at most inlen characters
-		error_print_msg("hex %.*s len = %zu\n", (int)(inlen > 80 ? 80 : inlen), in, inlen);
+		// the text is not echoed: callers pass key material through this function
+		error_print_msg("hex string of odd length %zu\n", inlen);
 		return -1;
 	}
 
